@@ -246,7 +246,10 @@ class MemTransport(repo.base_transport.BaseTransport):
         c = self.core
         if not self.lock_probe.acquire(False):
             c.mutex_violations += 1
-            self.lock_probe.acquire()
+            # real threads: the other actor leaves the transport soon; under the baton scheduler it is suspended INSIDE the transport and
+            # never will -- the verdict is in either way, so give up after a bounded wait instead of blocking the schedule into its watchdog
+            if not self.lock_probe.acquire(True, getattr(c, "excl_wait", 2.0)):
+                raise RuntimeError("verif: two actors inside the transport at the same time")
         return True
 
     def close(self):
